@@ -23,7 +23,9 @@ for pid in ALL:
         evidence_file="/verif/evidence/%s.json" % pid,
         replay_cmd_template="./check %s --replay {path}" % pid,
         engine="mc",
-        level_claimed=dict(category=cat, text=text, design_ref=ref),
+        level_claimed=dict(category=cat, text=text + " The complete list of axes of the explored space (representations, parameter routes, magnitudes, "
+                           "sizes, history events added during the seeding rounds) is the RULE string of checks/%s.py, which every run copies into "
+                           "the evidence file (coverage.rule)." % pid.lower(), design_ref=ref),
         level_note=note,
         technique=tech,
     ))
